@@ -39,6 +39,9 @@ struct St {
     status: Vec<Status>,
     yielding: Vec<bool>,
     spinner: Option<usize>,
+    /// decision index at which each thread was last given the baton (forced switches go to the thread
+    /// that has waited longest, so that two spinning threads cannot starve a third)
+    last_run: Vec<u32>,
     locks: BTreeMap<(&'static str, usize), usize>,
     decision: u32,
     schedule: Schedule,
@@ -78,6 +81,7 @@ impl Ctl {
                 status: vec![Status::NotStarted; threads],
                 yielding: vec![false; threads],
                 spinner: None,
+                last_run: vec![0; threads],
                 locks: BTreeMap::new(),
                 decision: 0,
                 schedule,
@@ -122,7 +126,8 @@ impl Ctl {
         st.decision += 1;
         let me_ok = elig.contains(&me) && !st.yielding[me];
         let others: Vec<usize> = elig.iter().copied().filter(|i| *i != me).collect();
-        let mut pick = if me_ok { me } else if !others.is_empty() { others[0] } else { me };
+        let longest_waiting = others.iter().copied().min_by_key(|i| (st.last_run[*i], *i));
+        let mut pick = if me_ok { me } else if let Some(o) = longest_waiting { o } else { me };
         if st.schedule.spinner_comes_back {
             if let Some(sp) = st.spinner {
                 if sp != me {
@@ -148,6 +153,7 @@ impl Ctl {
         for y in st.yielding.iter_mut() {
             *y = false;
         }
+        st.last_run[pick] = idx + 1;
         st.current = Some(pick);
     }
 
